@@ -39,6 +39,9 @@ type C15Req struct {
 	Writes   []int       `json:"writes,omitempty"`
 	FlushAt  []int       `json:"flushat,omitempty"` // call Flush after the i-th write (0 = before any write)
 	TECase   bool        `json:"tecase,omitempty"`  // chunked mode: spell the header value "Chunked"
+	HeadCL   int         `json:"headcl,omitempty"`  // HEAD / 304 in cl mode: the Content-Length announced for the body that is not sent
+	// CloseBody: the handler calls r.Body.Close() when it is done with the request (the usual defer)
+	CloseBody bool `json:"closebody,omitempty"`
 }
 
 type C15Case struct {
@@ -77,6 +80,7 @@ func genC15Req(t *rapid.T) C15Req {
 		}
 	}
 	r.ReadBody = rapid.SampledFrom([]string{"none", "none", "part", "all"}).Draw(t, "readbody")
+	r.CloseBody = rapid.IntRange(0, 3).Draw(t, "closebody") == 0
 	r.Mode = rapid.SampledFrom([]string{"cl", "cl", "chunked", "none"}).Draw(t, "mode")
 	if r.Minor == 0 && r.Mode == "chunked" {
 		r.Mode = "cl" // HTTP/1.0 peers do not understand chunked
@@ -89,8 +93,16 @@ func genC15Req(t *rapid.T) C15Req {
 	bodiless := r.Method == "HEAD" || r.Status == 204 || r.Status == 304
 	if !bodiless {
 		r.Writes = rapid.SliceOfN(rapid.SampledFrom([]int{0, 1, 14, 100, 2047, 2048, 2049, 5000}), 0, 3).Draw(t, "writes")
+	} else if rapid.Bool().Draw(t, "headbody") {
+		// a handler that does not look at the method (or at its own status) writes a body to a HEAD request or with a
+		// 204/304 status: no body may be sent
+		r.Writes = rapid.SliceOfN(rapid.SampledFrom([]int{1, 14, 100, 2049}), 1, 2).Draw(t, "writes")
 	} else if r.Mode == "chunked" {
 		r.Mode = "cl"
+	}
+	if bodiless && len(r.Writes) == 0 && r.Mode == "cl" && r.Status != 204 {
+		// a HEAD or 304 response announces the length of the representation it does not carry
+		r.HeadCL = rapid.SampledFrom([]int{0, 0, 5, 1234}).Draw(t, "headcl")
 	}
 	for i := 0; i <= len(r.Writes); i++ {
 		if rapid.IntRange(0, 4).Draw(t, "flush") == 0 {
@@ -102,6 +114,20 @@ func genC15Req(t *rapid.T) C15Req {
 
 func genC15(t *rapid.T) C15Case {
 	var c C15Case
+	if rapid.IntRange(0, 199).Draw(t, "long") == 57 {
+		// a long-lived keep-alive connection: far more than a megabyte of ordinary requests
+		n, body := 44, 32768
+		if rapid.Bool().Draw(t, "manysmall") {
+			n, body = 1300, 700
+		}
+		for i := 0; i < n; i++ {
+			c.Reqs = append(c.Reqs, C15Req{Method: "POST", Target: "/a/b", Minor: 1, BodyKind: "cl", BodyLen: body, ReadBody: "all", Mode: "cl", Status: 200, Writes: []int{14}})
+		}
+		c.Cuts = rapid.SampledFrom([][]int{nil, {1460}, {4096}}).Draw(t, "longcuts")
+		c.End = "park"
+		c.Queue = rapid.SampledFrom([]int{0, 16}).Draw(t, "queue")
+		return c
+	}
 	for i := rapid.IntRange(1, 5).Draw(t, "nreq"); i > 0; i-- {
 		c.Reqs = append(c.Reqs, genC15Req(t))
 	}
@@ -211,6 +237,9 @@ func runC15(c C15Case) (out core.Outcome) {
 			n, _ := io.ReadFull(r.Body, buf)
 			body = buf[:n]
 		}
+		if q.CloseBody {
+			defer r.Body.Close()
+		}
 		mu.Lock()
 		seen[i].body, seen[i].bodyRead = body, q.ReadBody
 		mu.Unlock()
@@ -223,6 +252,9 @@ func runC15(c C15Case) (out core.Outcome) {
 		}
 		switch q.Mode {
 		case "cl":
+			if q.HeadCL > 0 {
+				total = q.HeadCL
+			}
 			w.Header().Set("Content-Length", fmt.Sprint(total))
 		case "chunked":
 			if q.TECase {
@@ -338,6 +370,15 @@ func runC15(c C15Case) (out core.Outcome) {
 			cls.Add("handler-flush")
 		}
 		cls.Add("resp:%s", q.Mode)
+		if (q.Method == "HEAD" || q.Status == 204 || q.Status == 304) && len(q.Writes) > 0 {
+			cls.Add("handler-writes-body-where-none-is-allowed")
+		}
+		if q.CloseBody && i+1 < served {
+			cls.Add("handler-closes-body-then-request")
+		}
+		if q.HeadCL > 0 && i+1 < served {
+			cls.Add("bodiless-response-with-content-length-then-request")
+		}
 		if q.Minor == 0 {
 			cls.Add("http/1.0")
 		}
@@ -347,6 +388,9 @@ func runC15(c C15Case) (out core.Outcome) {
 	}
 	if len(c.Cuts) > 0 {
 		cls.Add("fragmented")
+	}
+	if total := len(stream); total > 1<<20 {
+		cls.Add("connection-carried-more-than-1MiB")
 	}
 	out.NonTrivial = multi || cls.Has("handler-flush") || cls.Has("resp:chunked")
 	for _, q := range c.Reqs {
@@ -444,7 +488,7 @@ func runC15(c C15Case) (out core.Outcome) {
 			wantBody = append(wantBody, c15RespBody(i, off, n)...)
 			off += n
 		}
-		if q.Method == "HEAD" {
+		if q.Method == "HEAD" || q.Status == 204 || q.Status == 304 {
 			wantBody = nil
 		}
 		if berr != nil {
